@@ -91,7 +91,7 @@ _rt_assume = [
 
 
 def _rt(prop, quick_cases, thorough_cases, minnt, free=True, extra_quick=None):
-    st = [stage('h_runtime', _RT_HX, name='h_runtime(DET)', quick=dict(cases=quick_cases, min_nontrivial=minnt, time_budget=200, case_timeout=120),
+    st = [stage('h_runtime', _RT_HX, name='h_runtime(DET)', quick=dict(cases=quick_cases, min_nontrivial=minnt, time_budget=200, case_timeout=60),
                 thorough=dict(cases=thorough_cases, min_nontrivial=minnt * 10, time_budget=1500, case_timeout=300), env=dict(RSV_FREE=0))]
     if free:
         st.append(stage('h_runtime', _RT_HX, name='h_runtime(FREE)', deterministic=False,
